@@ -155,6 +155,7 @@ inductive PC where
   -- teardown
   | tdb (i : Nat) | tdbd (i : Nat)
   | tm1 (c : Nat) | tm2 (c : Nat) | tm3 (c : Nat) | tmd (c : Nat) | tm4 (c : Nat)
+  | tdr               -- `Drop for ReadCursor`: load the last group pointer and release it
   -- sink
   | sy | spl
   deriving DecidableEq, Repr, Inhabited
@@ -717,19 +718,20 @@ def stepRun (σ0 : St) (t : Nat) (inp : Nat) : Obs × St :=
       let tg := σ0.tag i
       let o := mkObs σ0 t .load (.tag i) .rlx (res := encTag tg)
       if tg.isSome then (o, σ.goto t (.tdbd i))
-      else if i + 1 < N then (o, σ.goto t (.tdb (i+1))) else (o, σ.goto t (.ret .dropped))
+      else if i + 1 < N then (o, σ.goto t (.tdb (i+1))) else (o, σ.goto t .tdr)
   | .tdbd i =>
       let σ1 := { σ with drops := σ0.drops ++ [(σ0.cont i).getD 0] }
       let o := mkObs σ0 t .tauDrop (.val i)
-      if i + 1 < N then (o, σ1.goto t (.tdb (i+1))) else (o, σ1.goto t (.ret .dropped))
+      if i + 1 < N then (o, σ1.goto t (.tdb (i+1))) else (o, σ1.goto t .tdr)
   | .tm1 c => (mkObs σ0 t .load .loc .rlx (res := c), σ.goto t (.tm2 c))
   | .tm2 c =>
       let o := mkObs σ0 t .load .head .rlx (res := σ0.head)
-      if c = σ0.head then (o, σ.goto t (.ret .dropped)) else (o, σ.goto t (.tm3 c))
+      if c = σ0.head then (o, σ.goto t .tdr) else (o, σ.goto t (.tm3 c))
   | .tm3 c => (mkObs σ0 t .load .loc .rlx (res := c), σ.goto t (.tmd c))
   | .tmd c =>
       (mkObs σ0 t .tauDrop (.val (c % N)), ({ σ with drops := σ0.drops ++ [(σ0.cont (c % N)).getD 0] }).goto t (.tm4 c))
   | .tm4 c => (mkObs σ0 t .store .loc .rlx (a := c + 1), σ.goto t (.tm1 (c + 1)))
+  | .tdr => (mkObs σ0 t .load .readers .rlx (res := σ0.cur), σ.goto t (.ret .dropped))
   ---------------------------------------------------------------- sink
   | .sy => (mkObs σ0 t .yield_ .anon, σ.goto t .s0)
   | .spl => (mkObs σ0 t .lock .pwait, σ.goto t .s0)
